@@ -20,12 +20,13 @@ EXPLANATION = (
     'loses commands that are still within their lifetime).'
     ' Added later: R2 also demands that nothing suspends between the expiry test and the bytes reaching the stream (no await in the drain between test and _write, none in _write before the first write); R6 decides every accumulating construct the selecting condition names even when no caller passes it today.'
     ' Rounds 7-8: R2 also: _write raises of its own accord only when no writer is stored (a connection condition must surface as OSError so that the message is re-queued); R3 also: the failed entry is back in the queue before the handler first suspends; R5 also: commands keep their 30 s lifetime and a fixed-policy command is RETRY_IDEMPOTENT.'
+    " Rounds 9-10: R1 also: the converse of the budget rule (a failed entry with budget left is given up only because the socket was closed) and the in-flight entry is a local of the drain call; R2 also: _write contains no try/suppress (write faults reach the drain's handler) and no statement of the package assigns max_lifetime/max_retries of a policy object; R10 (C01.R11/R12 re-used)."
 )
 ASSUMPTIONS = [
     "the event-loop clock is monotonic",
     "vendor protocol: toggle / +-1 step / control-method change accumulate when repeated (AirTouch 4 v1.6 p.4,7; AirTouch 5 v1.2 p.5,8)",
 ]
-FLOORS = {"C02.R1": 3, "C02.R2": 4, "C02.R3": 1, "C02.R4": 5, "C02.R5": 20, "C02.R6": 8, "C02.R7": 1, "C02.R8": 1, "C02.R9": 1}
+FLOORS = {"C02.R1": 3, "C02.R2": 4, "C02.R3": 1, "C02.R4": 5, "C02.R5": 20, "C02.R6": 8, "C02.R7": 1, "C02.R8": 1, "C02.R9": 1, "C02.R10": 1}
 
 SENDERS = [
     (AT4_API, "At4Zone._send_group_control_message"),
@@ -47,6 +48,7 @@ def run(ctx):
     from .common import reuse
 
     reuse(ctx, "C02.R7", [c01.r2], "the pending queue is mutated only at its two ends by enqueue/drain (a failed idempotent command stays queued until it is re-sent)")
+    reuse(ctx, "C02.R10", [c01.r11, c01.r12], "a held command leaves the queue only to be written on a standing connection: the flush re-tests the connection before every pop and survives an unencodable neighbour, so no idempotent command is lost without a write fault of its own (C01.R11/R12)")
     reuse(ctx, "C02.R9", [c01.r3], "a re-queued command is written again as soon as a connection exists: the queue is drained after every successful connect and after every enqueue (C01.R3)")
     from . import c07
 
